@@ -6,32 +6,32 @@ ROOT = os.path.dirname(os.path.dirname(os.path.abspath(__file__)))
 TECH = "deterministic simulation with fault injection: "
 CHECKS = {
  "C13": dict(
-   text="Seeded machine states (all registers, IFF2, IM, border, 128K latch incl. lock, every RAM byte, SP in screen memory / at the top of RAM) are saved as SNA through a faulty recorder (short writes, error or Ok(0) at the k-th call) and loaded back into the same emulator after more execution or into a fresh emulator in a seeded dirty state; checks: hash of registers + RAM + paging + clock identical before and after the save (also when the recorder fails), every SNA-carried item restored, lock behaviour, and a twin continuation in which the saved machine and the restored one must execute the following frames identically. Save/load at an arbitrary instant is the crash/restart analogue of this codebase. Sampling, not proof.",
+   text="Seeded machine states (all registers, IFF2, IM, border, 128K latch incl. lock, every RAM byte, SP in screen memory / at the top of RAM) are saved as SNA through a faulty recorder (short writes, error or Ok(0) at the k-th call) and loaded back into the same emulator after more execution or into a fresh emulator in a seeded dirty state; checks: hash of registers + RAM + paging + clock identical before and after the save (also when the recorder fails), every SNA-carried item restored, lock behaviour, and a twin continuation in which the saved machine and the restored one must execute the following frames identically. Save/load at an arbitrary instant is the crash/restart analogue of this codebase. Sampling, not proof. States may be halted at save time; a failed save may be retried through a healthy recorder; receivers may have just rejected another file.",
    note="48K: the two bytes below SP hold PC after a load (format property) and are masked/equalised; IFF1 := IFF2, MEMPTR, Q and the position inside the frame are equalised before the continuation because SNA cannot carry them.",
    technique=TECH+"snapshot save through a fault-injecting recorder and reload into seeded dirty receivers, twin-machine continuation",
    ref="5 (C13)"),
  "C14": dict(
-   text="Seeded machine states encoded by independent SNA / SZX / SCR writers (chunk order permuted, pages stored or zlib-compressed, unknown chunks, optional AY/KEYB/AMXM/CRTR chunks) are loaded through chunking assets into seeded dirty receivers (halted, mid prefix chain, EI pending, paging locked on another bank, other border/IM/IFF, after a program ran, AY programmed, stopped by a breakpoint in the middle of a frame) and into a fresh one: field-by-field state comparison, display vs RefScreen, identical continuation of dirty and fresh receiver, AY read-back and PCM against a twin programmed through the ports, joystick/mouse presence, SZX HALTED/EILAST behaviour, identical continuation of SNA / stored-SZX / zlib-SZX encodings of one state, and the model-mismatch matrix (Err or correct layout, never a panic). The load at an arbitrary instant into an arbitrary receiver is this technique's crash/restart analogue: only what the file carries survives. Sampling, not proof. Receivers may have AY sound disabled in the settings; the same file may be loaded twice in a row.",
+   text="Seeded machine states encoded by independent SNA / SZX / SCR writers (chunk order permuted, pages stored or zlib-compressed, unknown chunks, optional AY/KEYB/AMXM/CRTR chunks) are loaded through chunking assets into seeded dirty receivers (halted, mid prefix chain, EI pending, paging locked on another bank, other border/IM/IFF, after a program ran, AY programmed, stopped by a breakpoint in the middle of a frame) and into a fresh one: field-by-field state comparison, display vs RefScreen, identical continuation of dirty and fresh receiver, AY read-back and PCM against a twin programmed through the ports, joystick/mouse presence, SZX HALTED/EILAST behaviour, identical continuation of SNA / stored-SZX / zlib-SZX encodings of one state, and the model-mismatch matrix (Err or correct layout, never a panic). The load at an arbitrary instant into an arbitrary receiver is this technique's crash/restart analogue: only what the file carries survives. Sampling, not proof. Receivers may have AY sound disabled in the settings; the same file may be loaded twice in a row. SZX frame positions are seeded (incl. values above 65535) and compared; receivers may have just rejected another file.",
    note="Writers follow the public format documents (DESIGN appendix E); what a format cannot carry is equalised before continuation; SZX HALTED accepted under either PC convention; AY PCM compared bit-exactly for fresh receivers only; SCR with the shadow screen displayed not asserted.",
    technique=TECH+"snapshot load injected at seeded instants into seeded dirty receivers; twin-machine continuation and reference-state comparison",
    ref="5 (C14)", cat="exploration"),
  "C15": dict(
-   text="Fault enumeration: for a corpus file of each format (SNA, SZX, SCR, TAP, ROM, gzip, VTX; from independent writers and the repository) the load is repeated with a read error and with a seek error at every asset call index, with short reads, both EOF styles and truncation at structural prefixes. Plus seeded structure-aware mutations (length/size/count fields, non-UTF-8 ids, out-of-range IM/border/page values, duplicated/shortened chunks, oversize) and random byte strings up to 160 KiB. Oracles: no panic and no arithmetic overflow (harness built with overflow checks), asset-call budget (deterministic hang detector), single-allocation bound, and the machine still emulates frames afterwards. Structure-aware mutations include re-spelled chunk ids with shortened bodies, 16-bit register fields at the extremes and RAM page chunks re-encoded with the wrong amount of data.",
+   text="Fault enumeration: for a corpus file of each format (SNA, SZX, SCR, TAP, ROM, gzip, VTX; from independent writers and the repository) the load is repeated with a read error and with a seek error at every asset call index, with short reads, both EOF styles and truncation at structural prefixes. Plus seeded structure-aware mutations (length/size/count fields, non-UTF-8 ids, out-of-range IM/border/page values, duplicated/shortened chunks, oversize) and random byte strings up to 160 KiB. Oracles: no panic and no arithmetic overflow (harness built with overflow checks), asset-call budget (deterministic hang detector), single-allocation bound, and the machine still emulates frames afterwards. Structure-aware mutations include re-spelled chunk ids with shortened bodies, 16-bit register fields at the extremes and RAM page chunks re-encoded with the wrong amount of data. A fifth of the receiving machines have been stopped by a breakpoint in the middle of a frame.",
    note="Enumeration is over fault positions of one load, not over all inputs; mutations and random strings are sampled. Allocation failure itself cannot be injected in-process (it aborts); the bound on the largest single request stands in for it. One known finding: a panic inside the third-party delharc LH5 decoder.",
    technique=TECH+"enumeration of asset failure positions plus seeded structure-aware corruption of the real loaders' inputs",
    ref="5 (C15)", cat="fault_enumeration"),
  "C18": dict(
-   text="The real AymPrecise driven by seeded register-write histories interleaved with sample generation at seeded sample rates (8-384 kHz), chips (AY/YM) and stereo modes, followed by one probe segment whose PCM is measured: tone pitch (zero crossings), TP=0 vs TP=1 stream identity, noise transition rate, envelope contour and repeat period for all 16 shapes, strictly increasing volume ladder, mixer gating for all 64 masks, panning per mode x channel, finiteness and bound; port read-back and register-number wrap through the real machine; two differentials on twin chips with identical histories: order independence of register writes, and listener independence (a channel that starts to listen to the tone / noise / envelope generator after an idle time hears bit-exactly what one that listened all along hears). Exploration with analytic, tolerance-based oracles - the weakest fit of the twenty (stated in DESIGN).",
+   text="The real AymPrecise driven by seeded register-write histories interleaved with sample generation at seeded sample rates (8-384 kHz), chips (AY/YM) and stereo modes, followed by one probe segment whose PCM is measured: tone pitch (zero crossings), TP=0 vs TP=1 stream identity, noise transition rate, envelope contour and repeat period for all 16 shapes, strictly increasing volume ladder, mixer gating for all 64 masks, panning per mode x channel, finiteness and bound; port read-back and register-number wrap through the real machine; two differentials on twin chips with identical histories: order independence of register writes, and listener independence (a channel that starts to listen to the tone / noise / envelope generator after an idle time hears bit-exactly what one that listened all along hears). Exploration with analytic, tolerance-based oracles - the weakest fit of the twenty (stated in DESIGN). Machine-level probes: register numbers with upper bits against a twin using the plain numbers (bit-identical sound), host mute / un-mute after a finished one-shot envelope (must stay silent).",
    note="Tolerances: pitch 1.5%+2 Hz (f < 0.2*rate), noise rate +-15%, envelope repeat period +-3%, ramp timing coarse (+-7%); a 1% pitch error or a wrong noise polynomial would pass. The simulated dimension is the write/generate interleaving and the sample rate; pitch and shape clauses themselves are pure.",
    technique=TECH+"seeded register-write/sample-generation interleavings on the real chip model, PCM features checked against the chip definition",
    ref="5 (C18)"),
  "C20": dict(
-   text="vtx::Player on a recording AymBackend under seeded partitions of the output into play() buffer lengths (1, 2, odd, prime, huge, mixed; odd and length-1 buffers in stereo): exact register-write schedule (frame k at sample k*floor(rate/freq), R13=0xFF skipped), totals, end reporting, stream order; on the real AymPrecise the chunked stream must be bit-identical to the one-buffer stream for i8/i16/i32/f32/f64; Vtx::load of generated files (independent header/strings builder + literal-only LH5 encoder) and of the repository's files must give the frame-major transpose. Sampling, not proof.",
+   text="vtx::Player on a recording AymBackend under seeded partitions of the output into play() buffer lengths (1, 2, odd, prime, huge, mixed; odd and length-1 buffers in stereo): exact register-write schedule (frame k at sample k*floor(rate/freq), R13=0xFF skipped), totals, end reporting, stream order; on the real AymPrecise the chunked stream must be bit-identical to the one-buffer stream for i8/i16/i32/f32/f64; Vtx::load of generated files (independent header/strings builder + literal-only LH5 encoder) and of the repository's files must give the frame-major transpose. Sampling, not proof. A fourth kind interleaves rewind / rewind_loop / set_frame (also rejected ones) with play() against a reference position model.",
    note="The schedule dimension is the caller's chunking of play(); no clock or fault is involved. Domain: sample_rate >= player_frequency >= 1; a length-1 buffer in stereo cannot hold a pair and must leave the stream untouched.",
    technique=TECH+"seeded call/buffer-size schedules on the real player with a recording backend seam; stream identity across chunkings",
    ref="5 (C20)"),
  "C10": dict(
-   text="Seeded TAP images (0-6 blocks, boundary lengths around the 128-byte buffer, right/wrong checksums, chunked asset) and request sequences (A, LOAD/VERIFY, IX anywhere incl. ROM and wrap, DE incl. 0 and D=0xFF) issued as direct calls of the ROM routine with fast loading on, on both machines (128K: the 48K BASIC ROM paged in through a seeded paging history - any bank at 0xC000, via ROM 0, locked, locked followed by ignored writes, paging writes between requests); memory, IX, DE and carry compared with RefLdBytes (byte-level model of the ROM code); requests past the end of the tape must not return and must leave the machine bit-identical to a twin with no tape inserted. Sampling, not proof. The host may rewind the deck between requests (also after the end of the tape was hit); the fast-load setting may be applied through the setter.",
+   text="Seeded TAP images (0-6 blocks, boundary lengths around the 128-byte buffer, right/wrong checksums, chunked asset) and request sequences (A, LOAD/VERIFY, IX anywhere incl. ROM and wrap, DE incl. 0 and D=0xFF) issued as direct calls of the ROM routine with fast loading on, on both machines (128K: the 48K BASIC ROM paged in through a seeded paging history - any bank at 0xC000, via ROM 0, locked, locked followed by ignored writes, paging writes between requests); memory, IX, DE and carry compared with RefLdBytes (byte-level model of the ROM code); requests past the end of the tape must not return and must leave the machine bit-identical to a twin with no tape inserted. Sampling, not proof. The host may rewind the deck between requests (also after the end of the tape was hit); the fast-load setting may be applied through the setter. Play followed at once by stop between requests leaves the deck servable by the fast loader; blocks up to 65535 bytes and repeated blocks are generated.",
    note="RefLdBytes is cross-validated against the real ROM loader running in real time by C11's system runs; the ROM's own stack traffic (also where it is visible through a second window onto the same bank) and (when its frame interrupt ran before returning) system variables are masked; banks mapped nowhere must stay untouched.",
    technique=TECH+"seeded tape images and request histories on the real machine against a reference loader model and a no-tape twin machine",
    ref="5 (C10)"),
@@ -41,7 +41,7 @@ CHECKS = {
    technique=TECH+"seeded time partitions on the real tape state machine against a reference waveform; twin-machine differential (fast load vs real-time ROM loader)",
    ref="5 (C11)"),
  "C19": dict(
-   text="Seeded speaker/MIC toggle schedules (observed by single-stepping), SZX snapshot loads between frames that carry their own speaker/MIC levels, under seeded sample rates (8-384 kHz), volumes, device enables and host drain policies (always / every j-th frame / never, multi-frame host calls): exactly floor(rate/50) samples per drained frame, every sample equals a beeper level in force within one sample of its frame time, all samples finite and within the volume bound (also with a randomly programmed AY), queue below two frames' worth when not drained. Sampling, not proof. The host may switch AY sound through set_ay_enabled between frames; the speaker level in force must survive.",
+   text="Seeded speaker/MIC toggle schedules (observed by single-stepping), SZX snapshot loads between frames that carry their own speaker/MIC levels, under seeded sample rates (8-384 kHz), volumes, device enables and host drain policies (always / every j-th frame / never, multi-frame host calls): exactly floor(rate/50) samples per drained frame, every sample equals a beeper level in force within one sample of its frame time, all samples finite and within the volume bound (also with a randomly programmed AY), queue below two frames' worth when not drained. Sampling, not proof. The host may switch AY sound through set_ay_enabled between frames; the speaker level in force must survive. Sound generation may be switched on through set_sound() after a construction with sound disabled.",
    note="Beeper factors (0.5 speaker, 0.1 MIC, volume/200) are taken from the mixer's documented constants; the per-sample clause is checked with the AY disabled; AY signal content is C18's.",
    technique=TECH+"seeded port-write times, sample rates and host drain schedules on the real machine, PCM checked against a reference level time line",
    ref="5 (C19)"),
@@ -51,7 +51,7 @@ CHECKS = {
    technique=TECH+"seeded write paths and write times relative to the simulated beam, frame buffers checked against a reference decode",
    ref="5 (C08)"),
  "C09": dict(
-   text="Seeded schedules of OUTs to even ports over several frames (several per line, in retrace, in the first/last border lines, straddling the frame end, frames with no write, border set by a loaded SNA or SZX snapshot at the start or between frames, SZX files with arbitrary low bits in their last-OUT field); write instants are observed by single-stepping and every completed border buffer is compared pixel by pixel with the reference time line within the property's 16-pixel tolerance. Sampling, not proof. Every fourth run the writes are made by a free-running program (instants from RefZ80 on RefMem+RefULA) while the host asks for several frames per call; the frame presented after each call is compared.",
+   text="Seeded schedules of OUTs to even ports over several frames (several per line, in retrace, in the first/last border lines, straddling the frame end, frames with no write, border set by a loaded SNA or SZX snapshot at the start or between frames, SZX files with arbitrary low bits in their last-OUT field); write instants are observed by single-stepping and every completed border buffer is compared pixel by pixel with the reference time line within the property's 16-pixel tolerance. Sampling, not proof. Every fourth run the writes are made by a free-running program (instants from RefZ80 on RefMem+RefULA) while the host asks for several frames per call; the frame presented after each call is compared. OUT (C) uses any even port; addresses that also match the AY decode are a known finding (the ULA never sees them).",
    note="Pixels whose beam time lies within 8 T of the span [start of port cycle, end of OUT] may show either colour; power-on state before any write is outside the statement.",
    technique=TECH+"seeded port-write times on the simulated frame clock, border frame buffer checked against a reference beam time line",
    ref="5 (C09)"),
@@ -61,7 +61,7 @@ CHECKS = {
    technique=TECH+"seeded configuration / port / beam-position sampling on the real machine against a strict decode model with canaries on all non-selected devices",
    ref="5 (C07)"),
  "C04": dict(
-   text="Whole-machine simulation at three levels: single bus operations on the real ZXController; stratified instructions single-stepped through the public API; and (every sixth run) a lock-step of thousands of instructions of seeded random code against RefZ80 running on RefMem + RefULA with no re-synchronisation, the cumulative emulated time compared after every instruction (state that only goes wrong over a history - a stale cache, a latch following an ignored write). The first two run each from a seeded start T (uniform and biased to the edges of the contention window / frame) with code, operands, stack, I register and port address placed in contended or uncontended memory under seeded 128K paging; observed durations are compared with RefULA applied to RefZ80's cycle script. Sampling, not proof. Round-3 additions: ports claimed by a host I/O extender are timed like any other port; 16-bit accesses with the word on a window border.",
+   text="Whole-machine simulation at three levels: single bus operations on the real ZXController; stratified instructions single-stepped through the public API; and (every sixth run) a lock-step of thousands of instructions of seeded random code against RefZ80 running on RefMem + RefULA with no re-synchronisation, the cumulative emulated time compared after every instruction (state that only goes wrong over a history - a stale cache, a latch following an ignored write). The first two run each from a seeded start T (uniform and biased to the edges of the contention window / frame) with code, operands, stack, I register and port address placed in contended or uncontended memory under seeded 128K paging; observed durations are compared with RefULA applied to RefZ80's cycle script. Sampling, not proof. Round-3 additions: ports claimed by a host I/O extender are timed like any other port; 16-bit accesses with the word on a window border. The lock-step also loads SZX snapshots of the current state positioned elsewhere in the frame (also earlier), so that anything cached about the frame position is exercised.",
    note="In the lock-step a clock difference at a frame crossing or interrupt entry is left to C05 and a register difference to C01/C06 (the pair is re-synchronised). Truth is RefULA (constants of the property text) + RefZ80 cycle scripts; the reference is re-synchronised from the machine's own registers and memory before every instruction (attribution: value bugs are C01's); even ports matching the paging decode are don't-care.",
    technique=TECH+"seeded start-time / placement / paging schedules on the real machine, durations checked against a reference contention model",
    ref="5 (C04)"),
@@ -81,7 +81,7 @@ CHECKS = {
    technique=TECH+"seeded operation histories on the real machine checked against a reference memory model",
    ref="5 (C06)"),
  "C16": dict(
-   text="The property this technique is made for: one scenario (machine, content, frame-keyed input script) is executed under several host drivings - call slicing, Max mode with arbitrary scripted stopwatch readings, breakpoint stops and resumes, sound off, drain always/sometimes/never, five asset implementations (BufferCursor, chunking asset, GzipAsset, real FileAsset, 1-byte reads) - and the hash of all CPU state, RAM, paging, clock, both frame buffers (and PCM for draining drivings) must be identical at every compared frame boundary. The system is its own oracle under a different schedule. Sampling, not proof. Sound and fast-load settings may be changed through their setters at call boundaries; the AY registers read back at the end of every driving are compared; in loader-program scenarios the frame phase is calibrated so that the fast-load trap is raised by the instruction that completes a frame.",
+   text="The property this technique is made for: one scenario (machine, content, frame-keyed input script) is executed under several host drivings - call slicing, Max mode with arbitrary scripted stopwatch readings, breakpoint stops and resumes, sound off, drain always/sometimes/never, five asset implementations (BufferCursor, chunking asset, GzipAsset, real FileAsset, 1-byte reads) - and the hash of all CPU state, RAM, paging, clock, both frame buffers (and PCM for draining drivings) must be identical at every compared frame boundary. The system is its own oracle under a different schedule. Sampling, not proof. Sound and fast-load settings may be changed through their setters at call boundaries; the AY registers read back at the end of every driving are compared; in loader-program scenarios the frame phase is calibrated so that the fast-load trap is raised by the instruction that completes a frame. Frame-count requests are driven with arbitrary stopwatch readings and a small limit as well; one scenario family fast-loads a tape longer than 256 KiB through every asset kind.",
    note="Inputs are applied at frame boundaries only; audio is compared only between drivings that drain every frame; repository snapshots, ROM boot and random programs are the workloads.",
    technique=TECH+"differential execution of one scenario under seeded host schedules, stopwatch scripts, breakpoints and asset chunkings",
    ref="5 (C16)"),
@@ -91,7 +91,7 @@ CHECKS = {
    technique=TECH+"seeded lock-step refinement of the real CPU against an executable reference model, single-instruction replay files",
    ref="5 (C01)"),
  "C02": dict(
-   text="Seeded search over INT-level / NMI-edge schedules (keyed by sampling opportunity), IM-2 bus bytes and instruction streams biased to EI/DI/HALT/RETN/prefix chains; lock-step refinement against RefZ80 plus independent history monitors over the implementation's own bus log (acceptance only when allowed, pushed PC, vector, HALT idling, RETN). Sampling, not proof.",
+   text="Seeded search over INT-level / NMI-edge schedules (keyed by sampling opportunity), IM-2 bus bytes and instruction streams biased to EI/DI/HALT/RETN/prefix chains; lock-step refinement against RefZ80 plus independent history monitors over the implementation's own bus log (acceptance only when allowed, pushed PC, vector, HALT idling, RETN). Sampling, not proof. A machine-level clause runs the real Emulator in lock-step with RefZ80 on the reference machine: sequencing-critical instructions (EI, DI, prefix chains, HALT, a short IM 2 handler) are placed so that they end inside the frame interrupt pulse, host actions that must not disturb the CPU (rejected snapshot files, snapshot saves, idempotent pokes) happen right behind them or in the middle of a prefix chain, and an interrupt taken or skipped against the rules is identified by re-running the reference step with the opposite decision.",
    note="Truth is RefZ80 plus the monitors; divergences are attributed to C02 only when they involve the lines, a control instruction or a sampling decision (others are C01's); NMI directly after EI/DI is inhibited in both models.",
    technique=TECH+"seeded interrupt-line schedules on a simulated Z80 bus, refinement + history monitors",
    ref="5 (C02)"),
